@@ -1,6 +1,7 @@
 CONSTANTS
   Ext <- AllExtensions
   Conv = "bundled"
+  Defects = FALSE
   Mode = "sim"
   Kernel = "full"
   MaxBlocks = 7
